@@ -119,7 +119,7 @@ class AsyncPolicy:
             self._handle_abort_call(ctx, exc, on_attempt_end)
             raise
         except RetryExhaustedError as exc:
-            self._handle_exhausted_call(ctx, exc)
+            self._handle_exhausted_call(ctx, exc, on_attempt_end)
             raise
         except Exception as exc:
             self._handle_exception_call(ctx, exc, on_attempt_end)
@@ -177,8 +177,22 @@ class AsyncPolicy:
         self,
         ctx: ExecutionContext,
         exc: RetryExhaustedError,
+        on_end: AttemptHook | None = None,
     ) -> None:
         """Handle RetryExhaustedError in call mode."""
+        if self.retry is None and on_end is not None:
+            # Raised by the operation itself (a nested policy gave up): the single attempt
+            # failed, and the attempt-end hook hears about it as for any other exception.
+            on_end(
+                make_attempt_context(
+                    1,
+                    ctx.operation,
+                    ctx.elapsed(),
+                    exception=exc,
+                    decision=AttemptDecision.RAISE,
+                    cause="exception",
+                )
+            )
         klass = exc.last_class or ErrorClass.UNKNOWN
         record_failure(ctx, klass)
 
